@@ -1065,7 +1065,12 @@ class MyPyAstVisitor:
             if mypy_type.type_of_any == mp_types.TypeOfAny.from_unimported_type:
                 # If the Any type is generated b/c of from_unimported_type, then we can parse the type
                 # from the import information
-                missing_import_name = mypy_type.missing_import_name.split(".")[-1]  # type: ignore[union-attr]
+                if mypy_type.missing_import_name is None:
+                    # Mypy does not know the name for types of a missing submodule ("import xml.nosuch")
+                    logging.warning("Could not parse a type, added unknown type instead.")
+                    return sds_types.UnknownType()
+
+                missing_import_name = mypy_type.missing_import_name.split(".")[-1]
                 name, qname = self._find_alias(missing_import_name)
 
                 if not qname:  # pragma: no cover
